@@ -1,10 +1,19 @@
+pub mod chainutil;
 pub mod engine;
 pub mod world;
 pub mod props {
     pub mod c03;
+    pub mod c04;
+    pub mod c05;
+    pub mod c06;
+    pub mod c07;
+    pub mod c08;
+    pub mod c09;
     pub mod c12;
+    pub mod c13;
     pub mod c16;
     pub mod c17;
+    pub mod c18;
     pub mod c19;
     pub mod holder;
 }
